@@ -1,7 +1,7 @@
 (** C10 over the Go source: in the translation every index, slice expression, division, make, nil dereference and
     type assertion of the Go text is an operation that can answer Pnc, and every loop runs on fuel.  None of the
     translated entry points answers Pnc or runs out of fuel, for every argument value. *)
-From OtpV Require Import Prelude Sha GoSem Tables Decoder Derive Otp Ocra Errors Src SrcLift SrcEqDerive SrcEqOtp SrcEqOcra SrcTop C10.
+From OtpV Require Import Prelude Sha GoSem Tables Decoder Derive Otp Ocra Errors Src SrcLift SrcTop SrcEqDecode SrcEqDerive SrcEqOtp SrcEqOcraV SrcEqOcra C10.
 Open Scope N_scope.
 
 Theorem C10src_hotp : forall fuel junk secret code c p, runs fuel junk secret ->
